@@ -440,6 +440,8 @@ class Report:
             "samples": self.samples or ["(no cases)"],
             "known_findings_seen": sorted(self.known_seen),
         })
+        dist = cov.get("distribution", {})
+        cov["traces_validated_against_impl"] = int(sum(v for k, v in dist.items() if "cosim" in k)) + int(cov.get("cosim_cases", 0))
         if extra_cov:
             cov.update(extra_cov)
         ev = {"property_id": self.prop, "tier": self.tier if self.tier in ("quick", "thorough") else "quick",
